@@ -217,13 +217,19 @@ fn c08_records_leap_indicators_v2() {
     let leap: [u8; 12] = kani::any();
     let sw: [u8; 1] = kani::any();
     let ul: [u8; 1] = kani::any();
+    // each indicator block is either absent (count 0: every indicator is implied 0) or has one entry per type (RFC 8536 3.2)
+    let sw_present: bool = kani::any();
+    let ul_present: bool = kani::any();
+    let swb: &[u8] = if sw_present { &sw } else { &[] };
+    let ulb: &[u8] = if ul_present { &ul } else { &[] };
     let blocks: DataBlocks<'_, 8> =
-        DataBlocks { transition_times: &times, transition_types: &tidx, local_time_types: &ltt, time_zone_designations: &chars, leap_seconds: &leap, std_walls: &sw, ut_locals: &ul };
-    let h = Header { version: Version::V2, ut_local_count: 1, std_wall_count: 1, leap_count: 1, transition_count: 1, type_count: 1, char_count: 4 };
+        DataBlocks { transition_times: &times, transition_types: &tidx, local_time_types: &ltt, time_zone_designations: &chars, leap_seconds: &leap, std_walls: swb, ut_locals: ulb };
+    let h = Header { version: Version::V2, ut_local_count: ul_present as usize, std_wall_count: sw_present as usize, leap_count: 1, transition_count: 1, type_count: 1, char_count: 4 };
     let r = blocks.parse(&h, None);
     let lt = i64::from_be_bytes([leap[0], leap[1], leap[2], leap[3], leap[4], leap[5], leap[6], leap[7]]);
     let lc = i32::from_be_bytes([leap[8], leap[9], leap[10], leap[11]]);
-    let pair_ok = (sw[0] == 0 && ul[0] == 0) || (sw[0] == 1 && ul[0] == 0) || (sw[0] == 1 && ul[0] == 1);
+    let (isstd, isut) = (if sw_present { sw[0] } else { 0 }, if ul_present { ul[0] } else { 0 });
+    let pair_ok = (isstd == 0 && isut == 0) || (isstd == 1 && isut == 0) || (isstd == 1 && isut == 1);
     if !pair_ok {
         assert!(matches!(&r, Err(TzError::TzFile(TzFileError::InvalidStdWallUtLocal))));
     } else {
@@ -236,7 +242,8 @@ fn c08_records_leap_indicators_v2() {
         }
     }
     kani::cover!(r.is_ok());
-    kani::cover!(!pair_ok);
+    kani::cover!(!pair_ok && !sw_present && ul_present);
+    kani::cover!(!pair_ok && sw_present && ul_present);
     core::mem::forget(r);
 }
 
